@@ -1,6 +1,6 @@
 (** C09 — the hypotheses of the main theorems are satisfiable by non-trivial states; sample runs of the model. *)
 From Coq Require Import List Bool NArith PArith Lia.
-From TLXV Require Import Common.Order C09.LoserTree C09.Tournament C09.VOrder C09.Invariant C09.Spec C09.Winner C09.Final.
+From TLXV Require Import Common.Order C09.LoserTree C09.Tournament C09.VOrder C09.Invariant C09.Spec C09.Winner C09.Final C09.UnguardedGeneral.
 Import ListNotations.
 Local Open Scope N_scope.
 
@@ -77,3 +77,25 @@ Proof. vm_compute. reflexivity. Qed.
 Example ex_check_rejects_unstable_choice :
   check_N CGS [[1]; [1]] [1; 0; 0] = false /\ check_N (mkV false true false) [[1]; [1]] [1; 0; 0] = true.
 Proof. vm_compute. split; reflexivity. Qed.
+
+(** the unguarded classes outside their documented key precondition (C09/UnguardedGeneral.v): sentinel 3, keys
+    5 and 7 above it; the invariant holds, player 1 (key 1 < 3) beats the sentinel and is reported; once every
+    real key is above the sentinel a padding leaf wins and min_source() is invalid_ (the caller must stop before) *)
+Example ex_heads_g : list (option N) := [Some 5; Some 1; Some 7].
+
+Example ex_UInv_general :
+  UInv N.ltb 0 3 CUS (lt_build N.ltb 0 CUS 3 ex_heads_g) ex_heads_g /\
+  (exists j kj, live ex_heads_g j kj /\ beats_sentinel N.ltb 3 CUS kj) /\
+  lt_min_source 0 CUS (lt_build N.ltb 0 CUS 3 ex_heads_g) = 1 /\
+  lt_min_source 0 CUS (lt_delete_min_insert N.ltb 0 CUS (lt_build N.ltb 0 CUS 3 ex_heads_g) (Some 9)) = invalid_.
+Proof.
+  split; [|split; [|split]].
+  - apply ubuild_UInv; [reflexivity|cbn; lia|].
+    intros i x H. unfold ex_heads_g in H. cbn [nthN] in H.
+    destruct (i =? 0); [inversion H; eauto|].
+    destruct (N.pred i =? 0); [inversion H; eauto|].
+    destruct (N.pred (N.pred i) =? 0); [inversion H; eauto|discriminate].
+  - exists 1, 1. split; reflexivity.
+  - vm_compute. reflexivity.
+  - vm_compute. reflexivity.
+Qed.
